@@ -16,6 +16,10 @@ DEFAULT_WEIGHTS = {
 }
 
 
+class GenSkip(Exception):
+    """Nothing to choose from for this verb at this point; the verb is skipped."""
+
+
 class PCfg:
     def __init__(self, **kw):
         self.weights = dict(DEFAULT_WEIGHTS)
@@ -33,6 +37,7 @@ class PCfg:
         self.join_hows = ("inner", "left", "full", "cross")
         self.nonequi = True
         self.exclude_known = True  # avoid the shapes of open known findings by construction
+        self.sized = False  # sized integer / float32 source columns (C12, C17)
         w = kw.pop("weights", None)
         self.__dict__.update(kw)
         if w:
@@ -46,7 +51,7 @@ class PipeGen:
         if tables is None:
             k = draw(st.integers(1, cfg.max_tables))
             tables = [draw(data.table(f"t{i}", fams=cfg.fams, allow_tall=cfg.allow_tall and i == 0,
-                                      plain_str=cfg.expr.plain_str)) for i in range(k)]
+                                      plain_str=cfg.expr.plain_str, sized=cfg.sized)) for i in range(k)]
         self.case = {"tables": tables, "steps": []}
         self.env = refsem.Env(self.case)
         self.nvar = 0
@@ -55,13 +60,34 @@ class PipeGen:
         self.used_tables = set()
         self.classes = set()
         self.excluded = {}
+        # a verb that cannot be generated at this point (nothing to choose from, argument outside
+        # the value domain) is skipped: every generator method returns None in that case
+        for name in dir(self):
+            if name.startswith("v_") or name in ("sub_pipeline", "shape_to"):
+                setattr(self, name, self._guard(getattr(self, name)))
+
+    def _guard(self, fn):
+        def wrapped(*a, **k):
+            try:
+                return fn(*a, **k)
+            except (OutOfDomain, GenSkip):
+                self.skipped += 1
+                return None
+
+        return wrapped
+
+    def _noop(self):
+        pass
 
     # ---- helpers ----
     def chance(self, num, den=10):
         return self.draw(st.integers(0, den - 1)) < num
 
     def pick(self, xs):
-        return self.draw(st.sampled_from(list(xs)))
+        xs = list(xs)
+        if not xs:
+            raise GenSkip()
+        return self.draw(st.sampled_from(xs))
 
     def new_var(self):
         v = f"v{self.nvar}"
@@ -561,7 +587,7 @@ class PipeGen:
             verb = self.pick(verbs)
             try:
                 v2 = getattr(self, "v_" + verb)(var)
-            except OutOfDomain:
+            except (OutOfDomain, GenSkip):
                 self.skipped += 1
                 v2 = None
             if v2 is not None:
